@@ -43,7 +43,7 @@ pub fn dealer_group<C: Suite>(
                 Some(l) => IdentifierList::Custom(l),
                 None => IdentifierList::Default,
             };
-            let (s, p) = frost_core::keys::split(&sk, n, t, il, rng)?;
+            let (s, p) = C::api_split(&sk, n, t, il, rng)?;
             (s, p, Some(k))
         }
         None => {
@@ -51,7 +51,7 @@ pub fn dealer_group<C: Suite>(
                 Some(l) => IdentifierList::Custom(l),
                 None => IdentifierList::Default,
             };
-            let (s, p) = frost_core::keys::generate_with_dealer(n, t, il, rng)?;
+            let (s, p) = C::api_generate_with_dealer(n, t, il, rng)?;
             (s, p, None)
         }
     };
@@ -85,7 +85,7 @@ pub fn dkg_rounds<C: Suite>(
     let mut r1_pkgs = BTreeMap::new();
     let mut coeffs = BTreeMap::new();
     for id in ids {
-        let (s, p) = dkg::part1::<C, _>(*id, n, t, &mut *rng)?;
+        let (s, p) = C::api_dkg_part1(*id, n, t, &mut *rng)?;
         coeffs.insert(*id, s.coefficients());
         r1_secret.insert(*id, s);
         r1_pkgs.insert(*id, p);
@@ -95,7 +95,7 @@ pub fn dkg_rounds<C: Suite>(
     for id in ids {
         let mut recv = r1_pkgs.clone();
         recv.remove(id);
-        let (s, p) = dkg::part2(r1_secret[id].clone(), &recv)?;
+        let (s, p) = C::api_dkg_part2(r1_secret[id].clone(), &recv)?;
         r2_secret.insert(*id, s);
         r2_pkgs.insert(*id, p);
     }
@@ -130,7 +130,7 @@ pub fn dkg_group<C: Suite>(
     let mut pkps = BTreeMap::new();
     for id in ids {
         let (r1, r2) = dkg_inbox(&run, id);
-        let (kp, pkp) = dkg::part3(&run.r2_secret[id], &r1, &r2)?;
+        let (kp, pkp) = C::api_dkg_part3(&run.r2_secret[id], &r1, &r2)?;
         kps.insert(*id, kp);
         pkps.insert(*id, pkp);
     }
@@ -158,7 +158,7 @@ pub fn commit_all<C: Suite>(
     let mut nonces = BTreeMap::new();
     let mut comms = BTreeMap::new();
     for id in signers {
-        let (nn, cc) = frost_core::round1::commit::<C, _>(grp.kps[id].signing_share(), rng);
+        let (nn, cc) = C::api_commit(grp.kps[id].signing_share(), rng);
         nonces.insert(*id, nn);
         comms.insert(*id, cc);
     }
@@ -176,7 +176,7 @@ pub fn sign_session<C: Suite>(
     let pkg = SigningPackage::new(comms.clone(), msg);
     let mut shares = BTreeMap::new();
     for id in signers {
-        let sh = frost_core::round2::sign(&pkg, &nonces[id], &grp.kps[id]).map_err(|e| (*id, e))?;
+        let sh = C::api_sign(&pkg, &nonces[id], &grp.kps[id]).map_err(|e| (*id, e))?;
         shares.insert(*id, sh);
     }
     Ok(Session { signers: signers.to_vec(), nonces, comms, pkg, shares })
